@@ -31,11 +31,80 @@ chk('C08', 'model_checking',
     'into the implementation',
     'Lexer.tla', 'DESIGN.md section 5, C08')
 
+
+chk('C07', 'model_checking',
+    'TLC enumerates every forest up to the node bound (GenForest.tla) and '
+    'SExpr!Tokens/Shape state what every rendering must read back as; each '
+    'forest is expanded with every pair of lexical classes (18 classes: long '
+    'and hyphenated tokens, string literals with blanks/parentheses/;/newline/'
+    'doubled quotes, quoted symbols, comments ...) plus width-sensitive padded '
+    'variants and rendered by all four renderers; a sample of (forest, text) '
+    'pairs is judged by TLC itself (Conform.tla, LexText(text) = Tokens(f)).',
+    'One representative text per lexical class; forests beyond the bound are '
+    'not enumerated; token comparison outside TLC uses the reference reader '
+    'validated against LexerOps.tla by C08.',
+    'TLA+ forest generator + reference operators replayed into the four '
+    'renderers; TLC trace validation of recorded renderings',
+    'GenForest.tla, SExpr.tla, LexerOps.tla, Conform.tla', 'DESIGN.md section 5, C07')
+
+chk('C11', 'model_checking',
+    'SExpr!SubstF/IntroduceVars are the statement of the property; TLC '
+    'enumerates every (forest, simplification) pair of a bounded family '
+    '(identity keys with delete/leaf/tree/existing-subtree replacements, '
+    'structural keys whose replacement contains its own or the other key, '
+    'declarations after a set-logic prefix) and each final state is replayed '
+    'into mutator_utils.apply_simp under a watchdog; tokens, identities of '
+    'untouched nodes and immutability of the base are compared.',
+    'Bounded forests (<= 5/6 positions) and <= 2 keys of a kind; identity keys '
+    'designate non-nested nodes; nodes the specification leaves unspecified '
+    'may carry any identity.',
+    'TLA+ reference semantics of substitution as exhaustive case generator '
+    '(TLC dump) replayed into the implementation',
+    'GenSubst.tla, SExpr.tla', 'DESIGN.md section 5, C11')
+
+chk('C12', 'model_checking',
+    'SExpr!StructEq/Dfs/Bfs/CountNodes/CountExprs evaluated by TLC on every '
+    'forest with sharing up to the bound (all pairs of trees up to 6/7 '
+    'positions as two top-level trees); each final state is replayed into '
+    'ddsmt.nodes in-process (==, hash, deepcopy, pickle, dfs/bfs with depth '
+    'limits, counts, filter_nodes) and across a fork-based Pool(3) under three '
+    'leaf-text expansions (ASCII, empty string, non-BMP Unicode).',
+    'Hash collisions between different shapes are not constructed; trees '
+    'beyond the bound are not enumerated.',
+    'TLA+ reference operators on TLC-enumerated trees replayed into the '
+    'implementation, in-process and across processes',
+    'GenForest.tla, SExpr.tla', 'DESIGN.md section 5, C12')
+
+chk('C13', 'model_checking',
+    'SExpr!ReduplicateOK / DistinctIds evaluated by TLC on every forest with '
+    'sharing (shared leaves, lists and empty lists, also at top level) up to '
+    'the bound; every final state is replayed into nodes.reduplicate: tokens '
+    'unchanged, identities pairwise distinct, clean nodes keep identity, '
+    'argument unmodified.  (The strategy-level half - the base handed to every '
+    'task generator is a tree - is checked on recorded runs by C05.)',
+    'Bounded DAGs (<= 6/7 positions); a node must keep its identity only if '
+    'nothing below it had to be copied.',
+    'TLA+ reference predicate on TLC-enumerated DAGs replayed into the '
+    'implementation',
+    'GenForest.tla, SExpr.tla', 'DESIGN.md section 5, C13')
+
 NOT_YET = 'check not built yet (work in progress; see DESIGN.md section 10)'
 NOT_APPLICABLE = {}
 
 ENGINES = [
-    ('Lexer.tla', 'specs/Lexer.tla', 'TLA+ spec (TLC generator + operators)'),
+    ('Lexer.tla', 'specs/Lexer.tla',
+     'TLA+ spec: SMT-LIB reader as character-level state machine (generator)'),
+    ('LexerOps.tla', 'specs/LexerOps.tla',
+     'TLA+ operators: the reader as a function (LexText, ReadText)'),
+    ('SExpr.tla', 'specs/SExpr.tla',
+     'TLA+ operators: trees with identities, tokens, traversals, substitution, '
+     'reduplication'),
+    ('GenForest.tla', 'specs/GenForest.tla',
+     'TLA+ spec: generator of forests with sharing'),
+    ('GenSubst.tla', 'specs/GenSubst.tla',
+     'TLA+ spec: generator of (forest, simplification) pairs'),
+    ('Conform.tla', 'specs/Conform.tla',
+     'TLA+ trace/case validation of recorded implementation behaviour'),
 ]
 
 
